@@ -10,6 +10,10 @@ func readPitm(b *box) (id itemID, err error) {
 	if err != nil {
 		return -1, err
 	}
+	if len(buf) < 6 {
+		// flags (4 bytes) and the 16-bit item ID
+		return -1, ErrBufLength
+	}
 	b.readFlagsFromBuf(buf)
 	id = itemID(bmffEndian.Uint16(buf[4:]))
 	if logLevelInfo() {
